@@ -293,4 +293,5 @@ func Gen(c *core.Ctx) {
 		add(c, "noise", "nbns.names "+h)
 		add(c, "noise", "ssdp "+h)
 	}
+	genBig(c)
 }
